@@ -2,15 +2,19 @@
 import json, os, random, concurrent.futures
 import common
 import c03gen as G
+import c03s as S
 from common import Report, log
 
 MANIFEST = dict(
-    technique='Coq proof that a function-by-function Gallina model of the expression parser maps every rendering of every reference expression (all parenthesisation choices) to the prescribed tree + model-vs-code correspondence on rendered, corrupted and unsupported token lists + prescribed-tree oracle (generator knows the tree) on the whole statement surface',
-    text='Spec/RefGrammar.v defines the reference expressions (OR < AND < NOT < comparison/IS NULL/IN/BETWEEN/LIKE < || < + - < * / % < :: < primary), their token renderings for every choice of redundant parentheses, and Model/Expr.v the prescribed tree ast_of. Model/ExprParse.v mirrors expressions.go function by function (cursor, depth counter, quirks, defect switches). Theorem C03_parse_render_expr_partial: for every reference expression of the proved sub-surface (identifiers, literals, placeholders, all binary operators of the ladder, NOT, IS [NOT] NULL, [NOT] IN (list), [NOT] BETWEEN, [NOT] LIKE/ILIKE, :: and CAST with plain type names, any parentheses), every parenthesisation, every admissible follow token list, every depth limit and every nesting within it the model parser returns exactly (ast_of e, rest) - precedence, left associativity, parenthesis override, everything written appears, nothing else appears, never rejected, in one statement, by induction with one lemma per ladder level; function calls, CASE, tuples and type names with arguments are modelled but not yet covered by the induction (partial). Refuted-witness theorems for the two defect switches of the pinned tree (both repaired in /repo). The model is tied to the code on every run: the real parseExpression (hook) and the model are run on the same token lists (rendered, corrupted, unsupported) and must agree on accept/reject, consumed tokens and whole tree. Independently, the real parser output for generated statements of the whole documented surface (queries, DML, MERGE, DDL) is compared field by field with the tree the generator prescribes.',
-    note=common.BASE_NOTE + "Lexing is C04's theorem: C03 checks per run that the real tokenizer+converter produce the token list the renderer states. The statement level (SELECT/DML/DDL clauses) is covered by the prescribed-tree oracle only (no statement theorem yet); ASCII-only case folding in the model.",
+    technique='Coq proofs that function-by-function Gallina models of the expression parser and of the statement parser map every rendering of every reference expression / reference statement (all parenthesisation choices) to the prescribed tree + model-vs-code correspondence for parseExpression and parseStatement on rendered, corrupted and unsupported token lists + prescribed-tree oracle (generator knows the tree) on the whole statement surface',
+    text='Spec/RefGrammar.v defines the reference expressions (OR < AND < NOT < comparison/IS NULL/IN/BETWEEN/LIKE < || < + - < * / % < :: < primary; function calls, CASE, CAST, tuples), their token renderings for every choice of redundant parentheses, and Model/Expr.v the prescribed tree ast_of; Spec/RefStmt.v the reference statements (SELECT with DISTINCT [ON], aliases, FROM lists, all joins with ON/USING, WHERE, GROUP BY with ROLLUP/CUBE, HAVING, ORDER BY with direction and NULLS, LIMIT, OFFSET, FETCH; set operations; WITH [RECURSIVE] with column lists and [NOT] MATERIALIZED; INSERT with VALUES rows or a query, ON CONFLICT and RETURNING; UPDATE; DELETE), their renderings and ast_of_stmt. Model/ExprParse.v mirrors expressions.go and Model/StmtParse.v mirrors parseStatement / select.go / cte.go / the cores of dml.go function by function (cursor, depth counter, quirks, defect switches). Theorem C03_parse_render_expr_ext: for EVERY reference expression, every parenthesisation, every admissible follow token list, every depth limit and every nesting within it the model parser returns exactly (ast_of e, rest) - precedence, left associativity, parenthesis override, everything written appears, nothing else appears, never rejected, in one statement, by induction with one lemma per production. Theorems C03_parse_render_select_partial and C03_parse_render_stmt_partial: the same equation for parseStatement on every reference SELECT / every reference statement, every parenthesisation of every expression in it, by one lemma per clause composed along the token list (partial: the clauses outside Spec/RefStmt.v are listed in Props/C03.v). Refuted-witness theorems for the defect switches (two repaired in /repo, one - an alias without AS after a bare column - pinned by the project tests and kept as known finding). The models are tied to the code on every run: the real parseExpression / parseStatement (hooks) and the models are run on the same token lists (rendered, corrupted, unsupported) and must agree on accept/reject, consumed tokens and whole tree; Spec renderings and prescribed trees are cross-checked against the generator and the real tokenizer. Independently, the real parser output for generated statements of the whole documented surface (queries, DML, MERGE, DDL) is compared field by field with the tree the generator prescribes.',
+    note=common.BASE_NOTE + "Lexing is C04's theorem: C03 checks per run that the real tokenizer+converter produce the token list the renderer states. Clauses outside the reference grammar of Spec/RefStmt.v (derived tables, LATERAL, GROUPING SETS, FOR, sub-query expressions, window functions, MERGE, DDL) are covered by the prescribed-tree oracle and, where modelled, the correspondence only; ASCII-only case folding in the model; models.TokenType numbers of statement keywords are written in Spec/RefStmt.v (drift shows as a correspondence disagreement).",
     design='6/C03')
 
 DF_NONE = "(DFlags false false)"
+COQ_HEAD_STMT = ("From Coq Require Import List String NArith ZArith.\n"
+                 "From GV Require Import Spec.RefGrammar Spec.RefStmt Model.Expr Model.ExprParse Model.StmtParse.\n"
+                 "Import ListNotations.\nLocal Open Scope string_scope.\n")
 COQ_HEAD = ("From Coq Require Import List String NArith ZArith.\n"
             "From GV Require Import Spec.RefGrammar Model.Expr Model.ExprParse.\n"
             "Import ListNotations.\nLocal Open Scope string_scope.\n")
@@ -37,24 +41,24 @@ def vh_lines(sub, objs, timeout=1200):
     return outs
 
 
-def coq_eval(name, decls, value, timeout=900):
+def coq_eval(name, decls, value, timeout=900, head=None):
     """evaluate `value : list N` by vm_compute; returns list of ints or raises"""
-    body = COQ_HEAD + decls + "\nDefinition results := Eval vm_compute in (%s).\nPrint results.\n" % value
+    body = (head or COQ_HEAD) + decls + "\nDefinition results := Eval vm_compute in (%s).\nPrint results.\n" % value
     ok, out, err = common.coq_cases(name, body, timeout=timeout)
     if not ok:
         raise RuntimeError("coq case file %s failed: %s" % (name, err[-1500:]))
     return common.parse_nlist(out)
 
 
-def coq_eval_shards(name, items, mk_case, fn, shard=400, decl_type=None):
+def coq_eval_shards(name, items, mk_case, fn, shard=400, decl_type=None, head=None):
     """items -> Coq case terms; evaluate `map fn cases` in shards (parallel)"""
     shards = [items[i:i + shard] for i in range(0, len(items), shard)]
     def one(ix):
         terms = [mk_case(x) for x in shards[ix]]
         decls = "Definition cases%s := [\n  %s].\n" % ("" if decl_type is None else " : " + decl_type, ";\n  ".join(terms))
-        return coq_eval("%s_%d" % (name, ix), decls, "map (%s) cases" % fn)
+        return coq_eval("%s_%d" % (name, ix), decls, "map (%s) cases" % fn, head=head)
     res = []
-    with concurrent.futures.ThreadPoolExecutor(max_workers=8) as ex:
+    with concurrent.futures.ThreadPoolExecutor(max_workers=12) as ex:
         for r in ex.map(one, range(len(shards))):
             res += r
     return res
@@ -104,6 +108,10 @@ def expr_cases(rng, tier):
     for _ in range(40):
         e = ("not", e)
     cases.append(dict(id="deep-not:40", e=e, rho={}, kind="deep"))
+    # niladic datetime value functions (outside mexpr: oracle and tie only), alone and as operands
+    for i, nm in enumerate(G.NILADIC):
+        cases.append(dict(id="niladic:%d" % i, e=("niladic", nm), rho={}, kind="neg"))
+        cases.append(dict(id="niladic-op:%d" % i, e=("bin", "<", ("ident", False, "a"), ("bin", "+", ("niladic", nm), ("num", "1"))), rho={(1, 0): 1}, kind="neg"))
     e = ("ident", False, "a")
     for _ in range(60):
         e = ("neg", "-", e)
@@ -188,12 +196,12 @@ def correspondence_cases(rng, tier, cases):
     sample = [c for c in cases if c["kind"] != "pair"]
     pairs = [c for c in cases if c["kind"] == "pair"]
     rng.shuffle(pairs)
-    n_pair = 300 if tier == "quick" else 3000
-    n_rand = 250 if tier == "quick" else 2500
+    n_pair = 250 if tier == "quick" else 3000
+    n_rand = 200 if tier == "quick" else 2500
     chosen = pairs[:n_pair] + sample[:n_rand]
     for c in chosen:
         texts.append(("ref:" + c["id"], c["sql"], 0))
-    n_cor = 500 if tier == "quick" else 5000
+    n_cor = 400 if tier == "quick" else 5000
     src = [c for c in cases if G.size(c["e"]) <= 25]
     for i in range(n_cor):
         c = src[rng.randrange(len(src))]
@@ -209,6 +217,8 @@ def correspondence_cases(rng, tier, cases):
         texts.append(("depth:%d" % d, "( ( a + 1 ) ) * NOT b", d))
         texts.append(("depthf:%d" % d, "f ( CASE WHEN a THEN ( b ) END )", d))
         texts.append(("depthn:%d" % d, "a * - + - b", d))
+    for i, t in enumerate(["CURRENT_DATE", "current_time + 1", '"CURRENT_DATE"', "CURRENT_DATE . x", "CURRENT_TIMESTAMP ( )", "LOCALTIME [ 1 ]", "t . LOCALTIMESTAMP", "CURRENT_USER"]):
+        texts.append(("niladic:%d" % i, t, 0))
     return texts
 
 
@@ -253,7 +263,7 @@ def run_generator_crosscheck(rp, tier, rng, cases):
     """Spec/RefGrammar.render, pdepth, ref_expr and Model/Expr.ast_of agree with the Python generator"""
     sample = [c for c in cases if G.is_core(c["e"])]
     rng.shuffle(sample)
-    sample = sample[:400 if tier == "quick" else 3000]
+    sample = sample[:300 if tier == "quick" else 3000]
     def mk_r(c):
         return "(%s, %s, %s, %d)" % (G.coq_mexpr(c["e"]), G.coq_rho(c["rho"]), G.coq_toks(c["toks"]), G.pdepth(0, c["e"], c["rho"]))
     r1 = coq_eval_shards("c03_render", sample, mk_r, "fun c => if render_case_ok c then 0%N else 1%N", shard=300)
@@ -277,9 +287,12 @@ def run_statements(rp, tier, rng):
         s = gen.statement()
         rd = G.StmtRenderer(rng, rng.choice([0.0, 0.0, 0.1, 0.25]))
         try:
-            sql = " ".join(rd.S(s))
+            words = rd.S(s)
         except RecursionError:
             continue
+        if rng.random() < 0.15 and s["kind"] in ("select", "setop", "insert", "update", "delete"):
+            words = G.lower_clause_keywords(words)       # keywords are case-insensitive
+        sql = " ".join(words)
         cases.append(dict(id="stmt:%d" % i, s=s, sql=sql, want=pres.ast(s), feats=G.features(s)))
     outs = vh_lines("c03stmt", [{"id": c["id"], "sql": c["sql"]} for c in cases])
     viol, rejected = [], 0
@@ -302,6 +315,91 @@ def run_statements(rp, tier, rng):
     rp.cov["stmt_features_held"] = dict(sorted(feats_ok.items()))
     rp.cov["stmt_clause_combinations_held"] = len(combos)
     return cases, viol
+
+
+# ------------------------------------------------------------------------------------------------
+# statements in Coq: Spec/RefStmt.v vs the generator (tie c), Model/StmtParse.v vs parseStatement (tie a)
+
+def run_statements_coq(rp, tier, rng):
+    quick = tier == "quick"
+    gen = S.CoreStmtGen(rng)
+    pres = G.StmtPrescriber()
+    ref = []
+    for i in range(320 if quick else 5000):
+        s = gen.statement()
+        rd = S.LoggingRenderer(rng, rng.choice([0.0, 0.1, 0.25]))
+        try:
+            words = rd.S(s)
+        except RecursionError:
+            continue
+        conv = S.convert(s, rd.log)
+        if conv is None:
+            continue
+        ref.append(dict(id="sref:%d" % i, s=s, words=words, sql=" ".join(words), term=conv[0], srho=conv[1], want=pres.ast(s), feats=G.features(s)))
+    wide_gen = G.StmtGen(rng)
+    wide = []
+    for i in range(200 if quick else 3000):
+        st = wide_gen.statement()
+        try:
+            words = G.StmtRenderer(rng, 0.1).S(st)
+        except RecursionError:
+            continue
+        wide.append(dict(id="swide:%d" % i, words=words, sql=" ".join(words)))
+    other = []
+    src = ref + wide
+    for i in range(330 if quick else 6000):
+        c = src[rng.randrange(len(src))]
+        w = list(c["words"])
+        if len(w) > 60:
+            continue
+        for _ in range(rng.choice([1, 1, 2, 3])):
+            w = G.corrupt(rng, w) if rng.random() < 0.5 else S.corrupt_stmt(rng, w)
+        other.append(dict(id="scorrupt:%d" % i, sql=" ".join(w)))
+    for i in range(60 if quick else 1000):
+        other.append(dict(id="ssoup:%d" % i, sql=" ".join(rng.choice(S.STMT_JUNK) for _ in range(rng.randrange(1, 10)))))
+    for i, sql in enumerate(S.FIXED_TEXTS):
+        other.append(dict(id="sfixed:%d" % i, sql=sql))
+    allc = ref + wide + other
+    outs = vh_lines("c03stmtp", [{"id": c["id"], "sql": c["sql"]} for c in allc])
+    for c, o in zip(allc, outs):
+        c["out"] = o
+    usable = lambda o: not o.get("tok_err") and o.get("tokens") and o["tokens"][-1]["ty"] == "TyEOF" and o["tokens"][-1]["lit"] == ""
+    coq_toks = lambda o: "[" + "; ".join(G.coq_tok(t["ty"], t["lit"], t["n"]) for t in o["tokens"]) + "]"
+    # tie (c): Spec/RefStmt.v render_stmt / ast_of_stmt = generator
+    refu = [c for c in ref if usable(c["out"])]
+    r1 = coq_eval_shards("c03_srender", refu, lambda c: "(%s, %s, %s)" % (c["term"], c["srho"], coq_toks(c["out"])[:-len('; Tk TyEOF ""]')] + "]"),
+                         "fun c => if stmt_render_case_ok c then 0%N else 1%N", shard=150, head=COQ_HEAD_STMT)
+    r2 = coq_eval_shards("c03_sspec", refu, lambda c: "(%s, %s)" % (c["term"], G.coq_sx(c["want"])),
+                         "fun c => if stmt_spec_case_ok c then 0%N else 1%N", shard=150, head=COQ_HEAD_STMT)
+    gen_bad = [c for c, a, b in zip(refu, r1, r2) if a or b]
+    # tie (a): Model/StmtParse.v = parseStatement
+    items = [c for c in allc if usable(c["out"])]
+    def mk(c):
+        o = c["out"]
+        if o.get("panic"):
+            return "(%s, None)" % coq_toks(o)
+        exp = "Some (%s, %d)" % (G.coq_sx(o["tree"]), min(o["pos"], len(o["tokens"]))) if o["accepted"] else "None"
+        return "(%s, %s)" % (coq_toks(o), exp)
+    res = coq_eval_shards("c03_scorr", items, mk, "stmt_case_result tree_flags", shard=70,
+                          decl_type="list (list token * option (sx * nat))", head=COQ_HEAD_STMT)
+    bad = [(c, r) for c, r in zip(items, res) if r == 1 or c["out"].get("panic")]
+    ref_ids = {c["id"] for c in ref}
+    ref_unmodelled = [c for c, r in zip(items, res) if r == 2 and c["id"] in ref_ids]
+    ref_rejected = [c for c in refu if not c["out"]["accepted"]]
+    rp.cov["stmt_coq_reference_statements"] = len(refu)
+    rp.cov["stmt_coq_reference_features"] = dict(sorted(_count(f for c in refu for f in c["feats"]).items()))
+    rp.cov["stmt_corr_cases"] = len(items)
+    rp.cov["stmt_corr_agree_accept"] = sum(1 for c, r in zip(items, res) if r == 0 and c["out"]["accepted"])
+    rp.cov["stmt_corr_agree_reject"] = sum(1 for c, r in zip(items, res) if r == 0 and not c["out"]["accepted"])
+    rp.cov["stmt_corr_unmodelled_branch"] = sum(1 for r in res if r == 2)
+    return dict(ref=refu, gen_bad=gen_bad, bad=bad, ref_unmodelled=ref_unmodelled, ref_rejected=ref_rejected, n=len(items))
+
+
+def _count(it):
+    d = {}
+    for x in it:
+        d[x] = d.get(x, 0) + 1
+    return d
 
 
 # ------------------------------------------------------------------------------------------------
@@ -340,21 +438,24 @@ def run_known(rp, kf):
 
 # ------------------------------------------------------------------------------------------------
 
-THEOREMS = ["Props.C03.C03_parse_render_expr_partial", "Props.C03.C03_refuted_cmp_rhs_primary",
-            "Props.C03.C03_refuted_like_primary"]
+THEOREMS = ["Props.C03.C03_parse_render_expr_ext", "Props.C03.C03_parse_render_expr_partial", "Props.C03.C03_refuted_cmp_rhs_primary",
+            "Props.C03.C03_refuted_like_primary", "Props.C03.C03_parse_render_select_partial", "Props.C03.C03_parse_render_stmt_partial",
+            "Props.C03.C03_select_refuted_bare_alias"]
 
 
 def run(tier):
     rp = Report("C03", tier)
     rng = random.Random(common.seed())
     kf = common.known_findings("C03")
+    import time as _t
+    _start = _t.time()
     try:
         with common.Lock():
             common.stage_harness()
-            ok_inst, ok_props, _, logs = common.coq_stage(rp, ["theories/Proofs/ExprParseP.vo"], "theories/Props/C03.v", THEOREMS)
+            ok_inst, ok_props, _, logs = common.coq_stage(rp, ["theories/Proofs/ExprParseP.vo", "theories/Proofs/ExprParseExtP.vo", "theories/Proofs/StmtParseP.vo"], "theories/Props/C03.v", THEOREMS)
             if not ok_inst:
                 # the model itself must still build for the correspondence
-                ok_make, log_make = common.coq_make(["theories/Model/ExprParse.vo"])
+                ok_make, log_make = common.coq_make(["theories/Model/ExprParse.vo", "theories/Model/StmtParse.vo"])
                 if not ok_make:
                     raise common.StageError("coq-model", log_make[-2000:])
     except common.StageError as e:
@@ -363,14 +464,22 @@ def run(tier):
         rp.violation({"kind": "proof", "theorem": "Proofs/ExprParseP.v / Props/C03.v", "log": (logs["inst"] + logs["props"])[-3000:]},
                      "props_c03", no_input=True)
     rp.assumptions = ["lexing (text -> tokens) is C04's theorem; per run the real tokenizer+converter output is compared with the renderer's token list",
-                      "theorem covers the sub-surface `proved` (see Props/C03.v); omitted productions and the statement level are covered by correspondence and the prescribed-tree oracle only",
+                      "the theorems cover the reference grammars of Spec/RefGrammar.v and Spec/RefStmt.v (see Props/C03.v for the omitted clauses); the rest of the documented surface is covered by correspondence and the prescribed-tree oracle only",
                       "model case folding is ASCII-only (Go uses Unicode simple folding for EqualFold/ToUpper on keyword-like literals)"]
+    import time
+    phase, t0 = {}, _start
+    def lap(name):
+        nonlocal t0
+        phase[name] = round(time.time() - t0, 1); t0 = time.time()
+    lap("coq_stage")
     try:
-        cases, viol, tokbad = run_expressions(rp, tier, rng, kf)
-        items, corr_bad, depth_bad = run_correspondence(rp, tier, rng, cases)
-        gen_bad = run_generator_crosscheck(rp, tier, rng, cases)
-        scases, sviol = run_statements(rp, tier, rng)
-        run_known(rp, kf)
+        cases, viol, tokbad = run_expressions(rp, tier, rng, kf); lap("expr_oracle")
+        items, corr_bad, depth_bad = run_correspondence(rp, tier, rng, cases); lap("expr_tie")
+        gen_bad = run_generator_crosscheck(rp, tier, rng, cases); lap("expr_crosscheck")
+        scases, sviol = run_statements(rp, tier, rng); lap("stmt_oracle")
+        sc = run_statements_coq(rp, tier, rng); lap("stmt_coq")
+        run_known(rp, kf); lap("known")
+        rp.cov["phase_seconds"] = phase
     except common.StageError as e:
         return common.stage_fail(rp, e)
     rp.obligation("oracle(b): real parseExpression = prescribed tree on all generated reference expressions", not viol, "%d failures" % len(viol))
@@ -385,6 +494,36 @@ def run(tier):
     for c in sviol[:8]:
         rp.violation({"kind": "stmt", "sql": c["sql"], "prescribed": c["want"], "observed": (c["out"].get("trees") or [None])[0],
                       "accepted": c["out"]["accepted"], "code": c["out"].get("code"), "why": c["why"]}, safe_id(c["id"]))
+    # statement level in Coq
+    rp.obligation("tie(a): model parseStatement (StmtParse.v) = real parseStatement on rendered reference statements, wider-surface statements, corrupted token lists",
+                  not sc["bad"], "%d disagreements of %d" % (len(sc["bad"]), sc["n"]))
+    rp.obligation("generator = Spec.RefStmt.render_stmt / ast_of_stmt on reference statements", not sc["gen_bad"], "%d" % len(sc["gen_bad"]))
+    rp.obligation("reference statements of Spec/RefStmt.v are inside the model (no unmodelled branch) and accepted by the real parser",
+                  not sc["ref_unmodelled"] and not sc["ref_rejected"], "%d unmodelled, %d rejected" % (len(sc["ref_unmodelled"]), len(sc["ref_rejected"])))
+    stmt_oracle_ids = {c["sql"] for c in sviol}
+    for c, r in sc["bad"][:5]:
+        o = c["out"]
+        why = None
+        if "want" in c:        # a reference statement: the property oracle decides whether the implementation fails on it
+            why = ("panic: " + o["panic"][:200]) if o.get("panic") else ("rejected (%s)" % o.get("code")) if not o["accepted"] else G.tree_diff(c["want"], o.get("tree"))
+        if why:
+            rp.violation({"kind": "stmt", "sql": c["sql"], "prescribed": c["want"], "observed": o.get("tree"), "accepted": o["accepted"],
+                          "code": o.get("code"), "why": why, "also": "Model/StmtParse.v disagrees with parseStatement on this statement"},
+                         "scorr_" + safe_id(c["id"]))
+        else:
+            rp.violation({"kind": "correspondence", "broken": "StmtParse.v vs parseStatement", "sql": c["sql"],
+                          "impl": {k: o.get(k) for k in ("accepted", "code", "pos", "tree", "panic")}}, "scorr_" + safe_id(c["id"]), no_input=True)
+    for c in sc["gen_bad"][:3]:
+        rp.violation({"kind": "correspondence", "broken": "python generator vs Spec/RefStmt.v", "sql": c["sql"], "term": c["term"][:2000]},
+                     "sgen_" + safe_id(c["id"]), no_input=True)
+    for c in (sc["ref_rejected"] + sc["ref_unmodelled"])[:3]:
+        o = c["out"]
+        if not o["accepted"]:
+            rp.violation({"kind": "stmt", "sql": c["sql"], "prescribed": c["want"], "observed": None, "accepted": False, "code": o.get("code"),
+                          "why": "reference statement rejected (%s)" % o.get("code")}, "sref_" + safe_id(c["id"]))
+        else:
+            rp.violation({"kind": "correspondence", "broken": "reference statement reaches an unmodelled branch of StmtParse.v", "sql": c["sql"]},
+                         "sref_" + safe_id(c["id"]), no_input=True)
     for it, r in corr_bad[:5]:
         rp.violation({"kind": "correspondence", "broken": "ExprParse.v vs parseExpression", "sql": it[1], "depth": it[2],
                       "impl": {k: it[3].get(k) for k in ("accepted", "code", "pos", "tree", "panic")}}, "corr_" + it[0], no_input=True)
@@ -394,7 +533,7 @@ def run(tier):
     for c in gen_bad[:3]:
         rp.violation({"kind": "correspondence", "broken": "python generator vs Spec/RefGrammar.v", "expr": c["e"], "rho": str(c["rho"])},
                      "gen_" + c["id"], no_input=True)
-    rp.cov["evaluations"] = len(cases) + len(items)
+    rp.cov["evaluations"] = len(cases) + len(items) + sc["n"]
     rp.cov["distinct_nontrivial"] = len({c["sql"] for c in cases if G.size(c["e"]) >= 3})
     rp.cov["rule"] = "pair cases: every (outer operator, slot, inner operator) x parenthesisation variant; random reference expressions <= 60 nodes; corrupted and soup token lists for the model-vs-code tie"
     rp.cov["samples"] = [c["sql"] for c in cases[:3]] + [c["sql"] for c in cases if c["kind"] == "random"][:3]
